@@ -29,6 +29,7 @@ WHAT = {
  "C11-b": "link-variable refresh moved to the end of the screening iteration: a resumed solver starts with stale operators",
  "C12-a": "next proposal averages with the stale tentative_dt instead of the accepted dt",
  "C12-b": "adaptivity silently switched off when dt_init == dt_max",
+ "C12-c": "give-up condition of the retry loop inverted with `or`: adaptive runs never give up, fixed-step runs retry with a reduced step",
  "C13-a": "floor of the relative-error denominator raised from 1e-20 to 1e-8",
  "C13-b": "screening loop bounded by range(max+1): the non-convergence error can never fire",
  "C13-c": "Polyak update done in place: the accepted induced potential held by the runner / seed is overwritten by the next step's iterates",
